@@ -52,10 +52,20 @@ var reFrame = regexp.MustCompile(`(?m)^  (.+)\(\)\n\s+(\S+?):(\d+)`)
 
 // firstRepoFrame returns the function of the first frame whose file is under
 // /repo/ and whether it is library code.
-func firstRepoFrame(stack string) (string, bool) {
+func firstRepoFrame(stack string) (string, bool) { return repoFrame(stack, false) }
+
+func repoFrame(stack string, skipSimrt bool) (string, bool) {
 	for _, m := range reFrame.FindAllStringSubmatch(stack, -1) {
 		fn, file := m[1], m[2]
 		if !strings.HasPrefix(file, "/repo/") {
+			continue
+		}
+		if skipSimrt && strings.Contains(file, "/internal/simrt/") {
+			continue
+		}
+		if strings.Contains(file, "/internal/simrt/") && (strings.HasSuffix(fn, "simrt.raceRead") || strings.HasSuffix(fn, "simrt.raceWrite") || strings.Contains(fn, "simrt.(*WaitGroup).")) {
+			// the replayed race annotations of sync.WaitGroup (simrt/sync.go): the
+			// access belongs to the caller, as it does with the real WaitGroup
 			continue
 		}
 		lib := !strings.Contains(file, "zz_verif_") && !strings.Contains(file, "/internal/simrt/")
@@ -63,6 +73,9 @@ func firstRepoFrame(stack string) (string, bool) {
 	}
 	return "", false
 }
+
+var reAnnot = regexp.MustCompile(`^[^\n]*\n  runtime\.race(read|write)\(\)`)
+var reByG = regexp.MustCompile(`by goroutine (\d+):`)
 
 var reShape = regexp.MustCompile(`\[[^\]]*\]`)
 
@@ -120,6 +133,20 @@ func newRaceReports() []raceReport {
 		var fs []string
 		for i := 0; i < 2; i++ {
 			fn, lib := firstRepoFrame(acc[i] + "\n")
+			if !lib && reAnnot.MatchString(acc[i]) && (fn == "" || strings.Contains(fn, "/internal/simrt.")) {
+				// replayed WaitGroup annotation (simrt/sync.go) whose stack the
+				// detector could not restore beyond the task's entry point: the
+				// goroutine is the library's if library code started it
+				if m := reByG.FindStringSubmatch(acc[i]); m != nil {
+					for _, blk := range parts {
+						t := strings.TrimSpace(blk)
+						if strings.HasPrefix(t, "Goroutine "+m[1]+" ") {
+							fn, lib = repoFrame(t+"\n", true)
+							fn = "goroutine started by " + fn
+						}
+					}
+				}
+			}
 			kind := strings.Fields(acc[i])[0]
 			if strings.HasPrefix(acc[i], "Previous") {
 				kind = strings.Fields(acc[i])[1]
